@@ -90,6 +90,23 @@ def check_table(chk, drv, fn, args, alpha, z):
     pt, v = textbook(fn, *args)
     chk.d(close(res[1], float(pt), rtol=1e-12), '%s point estimate = textbook definition' % fn, case)
     chk.d(close(res[4] ** 2, float(v), rtol=1e-11), '%s SE = Wald formula' % fn, case)
+    # ---- D: the two reported limits, from the textbook point estimate, the Wald SE and the normal quantile z:
+    # differences point -/+ z*se; ratios exp(log(point) -/+ z*se); NNT the reciprocals of the risk-difference limits
+    se = math.sqrt(float(v))
+    if fn in ('risk_difference', 'incidence_rate_difference'):
+        lo, hi = float(pt) - z * se, float(pt) + z * se
+    elif fn == 'number_needed_to_treat':
+        a_, b_, c_, d_ = map(Fraction, args)
+        rd = float(a_ / (a_ + b_) - c_ / (c_ + d_))
+        lo = 1 / (rd - z * se) if rd - z * se != 0 else math.inf
+        hi = 1 / (rd + z * se) if rd + z * se != 0 else math.inf
+    else:
+        lo, hi = math.exp(math.log(float(pt)) - z * se), math.exp(math.log(float(pt)) + z * se)
+    near0 = fn == 'number_needed_to_treat' and (abs(rd - z * se) < 1e-9 or abs(rd + z * se) < 1e-9)
+    if not near0:           # a reciprocal of (almost) zero is not judged in floating point
+        chk.d(close(res[2], lo, rtol=1e-9, atol=1e-12) and close(res[3], hi, rtol=1e-9, atol=1e-12),
+              '%s limits = documented function of point estimate, Wald SE and z(1 - alpha/2)' % fn,
+              dict(case, want_limits=[lo, hi], z=z))
 
 
 def relations(chk, a, b, c, d, alpha):
@@ -147,10 +164,11 @@ def enc_opt(xs, f):
     return ','.join('_' if (x is None or (isinstance(x, float) and math.isnan(x))) else f(x) for x in xs) or '[]'
 
 
-def check_frame(chk, drv, cls, df, ref, alpha, z):
+def check_frame(chk, drv, cls, df, ref, alpha, z, positional=False):
     import zepid
     name, col, sdcol, lcl, ucl, fn = CLASSES[cls]
-    obj = getattr(zepid, name)(reference=ref, alpha=alpha)
+    # the documented signature is (reference=0, alpha=0.05): options given by position or by keyword mean the same
+    obj = getattr(zepid, name)(ref, alpha) if positional else getattr(zepid, name)(reference=ref, alpha=alpha)
     rate = cls in ('IRR', 'IRD')
     try:
         if rate:
@@ -164,6 +182,7 @@ def check_frame(chk, drv, cls, df, ref, alpha, z):
         impl = ('zerodiv', None)
     nmiss = int(df[['exp', 'dis']].isna().any(axis=1).sum())
     case = {'cls': cls, 'ref': ref, 'alpha': alpha, 'n': len(df), 'missing_rows': nmiss,
+            'constructed': 'positional' if positional else 'keywords',
             'frame': df.reset_index().to_dict(orient='list') if len(df) <= 60 else 'n=%d (see seed)' % len(df)}
     chk.case(case, (cls, ref, alpha, hash(df.to_csv())) if nmiss else None,
              sample={k: v for k, v in case.items() if k != 'frame'} if chk.evals % 41 == 0 else None)
@@ -318,9 +337,32 @@ def run(chk, drv, rng, tier):
         refs = present if tier == 'thorough' else [present[int(rng.integers(0, len(present)))]]
         for ref in refs:
             for cls in CLASSES:
-                check_frame(chk, drv, cls, df, int(ref), alpha, zs[alpha])
+                check_frame(chk, drv, cls, df, int(ref), alpha, zs[alpha], positional=bool(rng.integers(0, 2)))
 
 
 def replay(rec):
-    print(rec)
-    return 0
+    """re-run the stored failing cases (count tables and small frames are stored in full) on the implementation"""
+    import common
+    from scipy.stats import norm
+    chk = common.Check('C07', 'quick', rec.get('seed', 0))
+    for f in rec.get('failures', []):
+        c = f['case']
+        c = c.get('case', c)
+        print('replaying:', f['what'], {k: v for k, v in c.items() if k not in ('frame', 'impl')})
+        alpha = c.get('alpha', 0.05)
+        z = float(norm.ppf(1 - alpha / 2))
+        if 'fn' in c and 'args' in c:
+            check_table(chk, None, c['fn'], tuple(c['args']), alpha, z)
+        elif 'table' in c:
+            relations(chk, *c['table'], alpha)
+        elif 'cls' in c and isinstance(c.get('frame'), dict):
+            fr = pd.DataFrame(c['frame'])
+            if 'index' in fr.columns:
+                fr = fr.set_index('index')
+            check_frame(chk, None, c['cls'], fr, c['ref'], alpha, z, positional=c.get('constructed') == 'positional')
+        else:
+            print('  (case not stored in full; rerun with the recorded seed)')
+    for d in chk.d_fail:
+        print('  FAILS:', d['what'])
+    print('failures reproduced:', len(chk.d_fail))
+    return 1 if chk.d_fail else 0
